@@ -198,6 +198,16 @@ func c16Invalidations() []invDev {
 	post("ext-duplicate-key", "ext", "", "", func(r *reqSpec, req *signature.SignRequest, rs *envenc.RemoteSigner) {
 		req.ExtendedSignedAttributes = []signature.Attribute{attr("io.example.a", true, 1), attr("io.example.a", false, 2)}
 	})
+	// a repeated key whose first (or second) occurrence carries a nil value
+	post("ext-duplicate-key(first value nil)", "ext", "", "", func(r *reqSpec, req *signature.SignRequest, rs *envenc.RemoteSigner) {
+		req.ExtendedSignedAttributes = []signature.Attribute{attr("io.example.a", true, nil), attr("io.example.a", false, "b")}
+	})
+	post("ext-duplicate-key(both values nil)", "ext", "", "", func(r *reqSpec, req *signature.SignRequest, rs *envenc.RemoteSigner) {
+		req.ExtendedSignedAttributes = []signature.Attribute{attr("io.example.a", false, nil), attr("io.example.between", false, 1), attr("io.example.a", false, nil)}
+	})
+	post("ext-duplicate-key(second value nil)", "ext", "", "", func(r *reqSpec, req *signature.SignRequest, rs *envenc.RemoteSigner) {
+		req.ExtendedSignedAttributes = []signature.Attribute{attr("io.example.a", false, "a"), attr("io.example.a", true, nil)}
+	})
 	// the same integer label twice, written with the same or with different Go integer types (one CBOR label either way)
 	for _, p := range []struct {
 		n    string
